@@ -4,6 +4,7 @@ import Pycoin.Proofs.ConvertBits
 import Pycoin.Proofs.Bech32Str
 import Pycoin.Proofs.Bech32Err
 import Pycoin.Proofs.ParseableStr
+import Pycoin.Gen.Confusables
 /-!
 C11 — Base58, Base58Check and Bech32/Bech32m codecs are exact and detect corruption.
 Property theorems (Base58 half; the Bech32 half is in the second part of this file).
@@ -541,6 +542,29 @@ theorem C11_rejects_too_long_or_out_of_range (t : List Char)
       · omega
       · have := hr c hc; omega
   exact ⟨this, by unfold decode; rw [this]⟩
+
+/-- **rejects_out_of_range.** A code point outside 33..126 anywhere in the string (hrp, separator region, data part or
+checksum) makes `bech32_decode` return `(None, None, None)` at its very first test, before `lower()`/`upper()` are ever
+applied and whatever `max_length` is — so Python's non-ASCII case mappings (U+212A KELVIN SIGN ↦ `k`, …) can never
+turn such a string into an accepted one. -/
+theorem C11_rejects_out_of_range (t : List Char) (c : Char) (hc : c ∈ t) (h : c.toNat < 33 ∨ c.toNat > 126)
+    (maxLength : Nat) (hrp : List Char) :
+    bech32Decode t maxLength = none ∧ decode hrp t = none ∧ parseBech32 t = none := by
+  have hany : t.any (fun x => decide (x.toNat < 33 ∨ x.toNat > 126)) = true := by
+    rw [List.any_eq_true]; exact ⟨c, hc, by simpa using h⟩
+  have h1 : ∀ m, bech32Decode t m = none := by
+    intro m
+    unfold bech32Decode
+    rw [if_pos (Or.inl hany)]
+  refine ⟨h1 _, ?_, ?_⟩
+  · unfold decode; rw [h1]
+  · unfold parseBech32; rw [h1]
+
+/-- every non-ASCII character that Python's `str.lower()` or `str.upper()` maps into code points 33..126 (table
+regenerated from the running Python: KELVIN SIGN, LONG S, DOTLESS I, ß, the ﬀ..ﬆ ligatures) is itself outside 33..126,
+hence refused by `C11_rejects_out_of_range` wherever it stands -/
+theorem C11_case_confusables_refused :
+    ∀ e ∈ Gen.Confusables.caseConfusables, e.1 > 126 := by decide +kernel
 
 /-- **rejects_wrong_const.** A well-formed Bech32 string whose first data symbol is 0 but whose checksum is the
 Bech32m one, or whose first symbol is not 0 but whose checksum is the Bech32 one, is refused by `decode`. -/
